@@ -594,16 +594,50 @@ Definition call_builtin (name : text) (fpos : pos) (args : list value) (m : mach
   | None => fail_at ERuntime fpos m          (* "Built-in function not defined", located at the function token *)
   end.
 
+(* the loops of the evaluator over lists of sub-expressions, parameterised by the evaluator of one expression *)
+Section EvalLoops.
+Variable ev : expr -> machine -> outcome (value * machine).
+
+(* list literals and built-in arguments: left to right *)
+Fixpoint eval_list (es : list expr) (m : machine) : outcome (list value * machine) :=
+  match es with
+  | [] => Ok ([], m)
+  | e1 :: r => do '(v, m1) <- ev e1 m; do '(vs, m2) <- eval_list r m1; Ok (v :: vs, m2)
+  end.
+
+(* record literals: a key that is not a string is skipped together with its value *)
+Fixpoint eval_rec (ks vs : list expr) (acc : list (text * value)) (m : machine) : outcome (list (text * value) * machine) :=
+  match ks with
+  | [] => Ok (acc, m)
+  | k :: ks' =>
+      do '(kv, m1) <- ev k m;
+      match kv with
+      | VStr key =>
+          match vs with
+          | v :: vs' => do '(vv, m2) <- ev v m1; eval_rec ks' vs' (alist_set key vv acc) m2
+          | [] => Panic SiteIndex
+          end
+      | _ => eval_rec ks' (tl vs) acc m1
+      end
+  end.
+
+(* parameters are bound by position: a missing argument is nil, a surplus argument is not evaluated *)
+Fixpoint bind_args (ps : list text) (as_ : list expr) (env : scope) (m : machine) : outcome (scope * machine) :=
+  match ps with
+  | [] => Ok (env, m)
+  | p1 :: ps' =>
+      match as_ with
+      | a1 :: as' => do '(v, m1) <- ev a1 m; bind_args ps' as' (alist_set p1 v env) m1
+      | [] => bind_args ps' [] (alist_set p1 VNil env) m
+      end
+  end.
+End EvalLoops.
+
 (* one fuel unit per nested evaluation / interpreted statement; [eval], [interp] and the call loop are mutually recursive *)
 Fixpoint eval (fuel : nat) (e : expr) (m : machine) {struct fuel} : outcome (value * machine) :=
   match fuel with
   | O => OutOfFuel
   | S f =>
-    let eval_list := fix eval_list (es : list expr) (m : machine) : outcome (list value * machine) :=
-      match es with
-      | [] => Ok ([], m)
-      | e1 :: r => do '(v, m1) <- eval f e1 m; do '(vs, m2) <- eval_list r m1; Ok (v :: vs, m2)
-      end in
     match e with
     | ENil _ => Ok (VNil, m)
     | EBool b _ => Ok (VBool b, m)
@@ -611,24 +645,11 @@ Fixpoint eval (fuel : nat) (e : expr) (m : machine) {struct fuel} : outcome (val
     | EStr s _ => Ok (VStr s, m)
     | EVar x _ => match lookup_var x (m_scopes m) with Some v => Ok (v, m) | None => rt_err m end
     | EList es _ =>
-        do '(vs, m1) <- eval_list es m;
+        do '(vs, m1) <- eval_list (eval f) es m;
         let '(a, h') := alloc_list (m_heap m1) vs in Ok (VList a, set_heap m1 h')
     | EGroup e1 _ => eval f e1 m
     | ERec ks vs _ =>
-        do '(r, m1) <- (fix go (ks vs : list expr) (acc : list (text * value)) (m : machine) : outcome (list (text * value) * machine) :=
-                          match ks with
-                          | [] => Ok (acc, m)
-                          | k :: ks' =>
-                              do '(kv, m1) <- eval f k m;
-                              match kv with
-                              | VStr key =>
-                                  match vs with
-                                  | v :: vs' => do '(vv, m2) <- eval f v m1; go ks' vs' (alist_set key vv acc) m2
-                                  | [] => Panic SiteIndex
-                                  end
-                              | _ => go ks' (tl vs) acc m1
-                              end
-                          end) ks vs [] m;
+        do '(r, m1) <- eval_rec (eval f) ks vs [] m;
         let '(a, h') := alloc_rec (m_heap m1) r in Ok (VRec a, set_heap m1 h')
     | EUn o e1 _ =>
         let p := expr_pos e1 in
@@ -710,22 +731,14 @@ Fixpoint eval (fuel : nat) (e : expr) (m : machine) {struct fuel} : outcome (val
         match fe with
         | EVar name np =>
             if is_builtin name then
-              do '(vs, m1) <- eval_list args m;
+              do '(vs, m1) <- eval_list (eval f) args m;
               call_builtin name np vs m1
             else
               do fv <- (match lookup_var name (m_scopes m) with Some v => Ok v | None => rt_err m end);
               match fv with
               | VFun start params =>
                   (* bind parameters by position; surplus arguments are not evaluated *)
-                  do '(env, m1) <- (fix bind_args (ps : list text) (as_ : list expr) (env : scope) (m : machine) : outcome (scope * machine) :=
-                                      match ps with
-                                      | [] => Ok (env, m)
-                                      | p1 :: ps' =>
-                                          match as_ with
-                                          | a1 :: as' => do '(v, m1) <- eval f a1 m; bind_args ps' as' (alist_set p1 v env) m1
-                                          | [] => bind_args ps' [] (alist_set p1 VNil env) m
-                                          end
-                                      end) params args [] m;
+                  do '(env, m1) <- bind_args (eval f) params args [] m;
                   let m2 := mkM start (env :: m_scopes m1) (m_loops m1) loop_count (m_pc m1 :: m_ret m1) (m_heap m1) (m_out m1) (m_world m1) (m_collections m1) in
                   match stmt_at start with
                   | Some (FBlockStart _) =>
@@ -736,12 +749,12 @@ Fixpoint eval (fuel : nat) (e : expr) (m : machine) {struct fuel} : outcome (val
                           match m_ret m3 with
                           | [] => Panic SiteUnwrap
                           | ra :: rets =>
-                              if length (m_scopes m3) <? env_count then Panic SiteUnderflow else
-                              let restore (mm : machine) :=
-                                mkM ra (truncate env_count (m_scopes mm)) (truncate loop_count (m_loops mm)) callers_base rets
-                                    (m_heap mm) (m_out mm) (m_world mm) (m_collections mm) in
                               match rv with
-                              | Ok (v, m4) => Ok (v, restore m4)
+                              | Ok (v, m4) =>
+                                  (* env_count_after_fn_call - env_count_before_fn_call *)
+                                  if length (m_scopes m4) <? env_count then Panic SiteUnderflow
+                                  else Ok (v, mkM ra (truncate env_count (m_scopes m4)) (truncate loop_count (m_loops m4)) callers_base rets
+                                                  (m_heap m4) (m_out m4) (m_world m4) (m_collections m4))
                               | Err e => Err e
                               | Panic s => Panic s
                               | OutOfFuel => OutOfFuel
